@@ -137,7 +137,7 @@ def run_one(m, timeout):
         ms = ms.replace("\n=====", "\n" + extra + "=====", 1)
         open(mp, "w").write(ms)
         pid = m["property"]
-        cfg = ["SPECIFICATION Spec", "VIEW ModelView", "CONSTRAINT Constraint", "CHECK_DEADLOCK FALSE"]
+        cfg = ["SPECIFICATION Spec", "VIEW CheckView", "CONSTRAINT Constraint", "CHECK_DEADLOCK FALSE"]
         if pid in props_defined(): cfg.append("PROPERTY Step_%s" % pid)
         for inv in STATE.get(pid, []): cfg.append("INVARIANT %s" % inv)
         open(os.path.join(d, "mut.cfg"), "w").write("\n".join(cfg) + "\n")
